@@ -165,8 +165,10 @@ func runCAS(s *sim.Sim, backend string, starve bool) {
 		client = kv.NewSimMetricsClient(backend, client, nil)
 		wrappers = append(wrappers, "metrics")
 	}
+	var secondary kv.Client
 	if s.Chance(0.3, "multi") {
 		sec, closer := consul.NewInMemoryClient(cdc, logger, nil)
+		secondary = sec
 		s.OnEnd(func() { _ = closer.Close() })
 		mc := kv.NewSimMultiClient(kv.MultiConfig{MirrorEnabled: true, MirrorTimeout: 2 * time.Second}, backend, client, "secondary", sec, logger, nil)
 		client = mc
@@ -210,13 +212,14 @@ func runCAS(s *sim.Sim, backend string, starve bool) {
 		}
 		var plans []plan
 		for o := 0; o < nOps; o++ {
-			kind := sim.Pick(s, "fn-kind", "append", "append", "append", "remove", "decline", "fail", "retry-then-append")
+			kind := sim.Pick(s, "fn-kind", "append", "append", "append", "remove", "decline", "fail", "retry-then-append", "append-then-decline", "decline-and-scribble", "fail-and-scribble")
 			if starve {
 				kind = "append"
 			}
 			plans = append(plans, plan{keys[s.Choose(len(keys), "key")], kind})
 		}
 		s.Go(name, func() {
+			var kept *ring.Desc // the object this caller returned from its last writing function (callers may keep it)
 			for o, p := range plans {
 				call := &casCall{caller: name, op: o, kind: p.kind}
 				s.Locked(func() {
@@ -242,8 +245,22 @@ func runCAS(s *sim.Sim, backend string, starve bool) {
 					var out interface{}
 					var retry bool
 					var ferr error
+					scribble := func() {
+						// the caller goes on using an object it handed to the store earlier: the store must not be affected
+						if kept != nil {
+							kept.Ingesters["scribble-"+name] = ring.InstanceDesc{Addr: "never-written", Timestamp: baseTS + 100000, State: ring.ACTIVE}
+							s.Probe("caller-reused-returned-object")
+						}
+					}
 					switch {
 					case p.kind == "decline":
+					case p.kind == "append-then-decline" && attempt > 1:
+						s.Probe("declined-after-lost-attempt")
+					case p.kind == "decline-and-scribble":
+						scribble()
+					case p.kind == "fail-and-scribble":
+						scribble()
+						ferr = errors.New("f failed")
 					case p.kind == "fail":
 						ferr = errors.New("f failed")
 					case p.kind == "retry-then-append" && attempt == 1:
@@ -278,6 +295,7 @@ func runCAS(s *sim.Sim, backend string, starve bool) {
 						}
 						out = d
 						inv.out = canon(d)
+						kept = d
 					}
 					s.Locked(func() { call.invs = append(call.invs, inv) })
 					s.Event("%s op%d f#%d in=%s out=%s", name, o, attempt, inv.in, inv.out)
@@ -414,6 +432,21 @@ func runCAS(s *sim.Sim, backend string, starve bool) {
 		}
 		if used != len(succs) && !s.Failed() && len(s.Known) == 0 {
 			s.Fail("broken-chain", "", "key %s: the %d successful CAS calls do not form one chain from the empty value (followed %d, stuck at %s); final value %s", key, len(succs), used, cur, fin)
+		}
+		// the mirror of a multi client only ever receives values that a successful call wrote
+		if secondary != nil && len(s.Known) == 0 {
+			sv, err := secondary.Get(ctx, key)
+			if err == nil && sv != nil {
+				mirrored := canon(sv)
+				legit := false
+				for _, x := range succs {
+					legit = legit || x.out == mirrored
+				}
+				s.Probe("mirror-checked")
+				if !legit {
+					s.Fail("mirror-holds-unwritten-value", "", "key %s: the secondary store of the multi client holds %s, which no successful CAS wrote (final primary value %s)", key, mirrored, fin)
+				}
+			}
 		}
 		if cur != fin && len(s.Known) == 0 {
 			s.Fail("final-value", "", "key %s: final value %s, but the chain of successful CAS calls ends at %s (a failed / declined call changed the value, or an update was lost)", key, fin, cur)
